@@ -22,7 +22,7 @@ for sid, (b, mu, su, summ) in sorted(res.items()):
     if not os.path.exists(p) or b == 124 or mu == 124:
         continue
     d = json.load(open(p))
-    if isinstance(d.get("verified"), str) and d["verified"].startswith(("rejected", "argument")):
+    if d.get("manual") or (isinstance(d.get("verified"), str) and d["verified"].startswith(("rejected", "argument"))):
         continue
     demo_ok = b == 0 and mu != 0
     if su == "skipped":
